@@ -39,6 +39,7 @@ TrRecsPer == C0.recsPer
 TrQCap == C0.qcap
 TrBatch == C0.maxbatch
 TrBufSize == C0.bufsize
+TrCancels == TrFlushers \cup TrStoppers      \* a context ends exactly where the trace has a Cancel line
 
 E == Trace[l]
 Gid(n) == <<"g" \o ToString(n \div 1000), n % 1000>>
@@ -64,7 +65,7 @@ LCall == /\ E.ev = "Call"
               [] OTHER -> FALSE
 LRet == /\ E.ev = "Ret"
         /\ CASE E.op = "Emit" -> LET id == Gid(E.id) IN id[1] \in Emitters /\ eidx[id[1]] = id[2] /\ ERet(id[1]) /\ Lin(id[1], <<>>)
-             [] E.op = "FF" -> E.proc \in Flushers /\ E.err = "" /\ FRet(E.proc) /\ Lin(E.proc, <<>>)
+             [] E.op = "FF" -> E.proc \in Flushers /\ (E.err # "") = ferr[E.proc] /\ FRet(E.proc) /\ Lin(E.proc, <<>>)
              [] E.op = "SD" -> /\ E.proc \in Stoppers
                                /\ (E.err = "") = (IF mon.early[E.proc] = "no" THEN serr = "" ELSE TRUE)
                                /\ SRet(E.proc) /\ Lin(E.proc, <<>>)
@@ -81,7 +82,9 @@ LExportEnd == /\ E.ev = "ExportEnd"
               /\ \E ab \in (IF ChunkAbort /\ E.err # "" THEN {FALSE, TRUE} ELSE {FALSE}) : XEnd(E.err = "", ab)
               /\ Lin("x", <<>>)
 LExporterFlush == E.ev = "ExporterFlush" /\ E.proc \in Flushers /\ FMWait(E.proc) /\ Lin(E.proc, <<>>)
-LExporterShutdown == E.ev = "ExporterShutdown" /\ E.proc \in Stoppers /\ SXWait(E.proc) /\ Lin(E.proc, <<>>)
+LExporterShutdown == E.ev = "ExporterShutdown" /\ E.proc \in Stoppers /\ (SXWait(E.proc) \/ SXWaitCancel(E.proc)) /\ Lin(E.proc, <<>>)
+(* written by the harness BEFORE it cancels the context (or creates it with a deadline): whoever sees it done logs later *)
+LCancel == E.ev = "Cancel" /\ E.proc \in Callers /\ Cancel(E.proc) /\ Adv /\ UNCHANGED pend
 
 (* ---------------------------------------------------------------- confirmation lines *)
 LPt == /\ E.ev = "Pt" /\ E.proc \in Procs
@@ -102,7 +105,8 @@ LCfg == /\ E.ev = "Cfg"
         /\ q' = I0.q /\ dropped' = I0.dropped /\ trig' = I0.trig /\ kill' = I0.kill /\ stopped' = I0.stopped
         /\ input' = I0.input /\ inputMu' = I0.inputMu /\ xstopped' = I0.xstopped /\ closed' = I0.closed
         /\ resp' = I0.resp /\ pc' = I0.pc /\ eidx' = I0.eidx /\ plen' = I0.plen /\ cur' = I0.cur /\ sbatch' = I0.sbatch
-        /\ serr' = I0.serr /\ caller' = I0.caller /\ qclosed' = I0.qclosed /\ stopDone' = I0.stopDone /\ mon' = I0.mon
+        /\ serr' = I0.serr /\ caller' = I0.caller /\ qclosed' = I0.qclosed /\ stopDone' = I0.stopDone
+        /\ cancelled' = I0.cancelled /\ ferr' = I0.ferr /\ mon' = I0.mon
         /\ pend' = NoPend /\ Adv
 
 (* ---------------------------------------------------------------- silent steps *)
@@ -121,6 +125,8 @@ SFl(f) == \/ FCheck(f) /\ Sil(f, <<P(IF stopped THEN "blp.ff.stopped" ELSE "blp.
           \/ FDequeue(f) /\ Sil(f, (IF q # <<>> THEN <<PD(IdSeq(q))>> ELSE <<>>) \o <<P("blp.ff.dequeued")>>)
           \/ FMLock(f) /\ Sil(f, IF xstopped THEN <<P("blp.xff.stopped")>> ELSE <<>>)
           \/ FMSend(f) /\ Sil(f, <<>>)
+          \/ FGiveUp(f) /\ Sil(f, <<P("blp.ff.dequeued")>>)
+          \/ (FMSendCancel(f) \/ FMWaitCancel(f)) /\ Sil(f, <<>>)
 SSt(s) == \/ SSwap(s) /\ Sil(s, <<P(IF stopped THEN "blp.sd.already" ELSE "blp.sd.swapped")>>)
           \/ SKill(s) /\ Sil(s, <<>>)
           \/ SWaitPoll(s) /\ Sil(s, <<P("blp.sd.polldone")>>)
@@ -129,6 +135,8 @@ SSt(s) == \/ SSwap(s) /\ Sil(s, <<P(IF stopped THEN "blp.sd.already" ELSE "blp.s
           \/ SEWait(s) /\ Sil(s, <<P("blp.sd.flushed")>>)
           \/ SXSwap(s) /\ Sil(s, IF xstopped THEN <<>> ELSE <<P("blp.xsd.swapped")>>)
           \/ SXLock(s) /\ Sil(s, <<>>)
+          \/ SWaitPollCancel(s) /\ Sil(s, <<>>)
+          \/ (SESendCancel(s) \/ SEWaitCancel(s)) /\ Sil(s, <<P("blp.sd.flushed")>>)
 Silent == \/ \E g \in Emitters : SEm(g)
           \/ SPoll \/ SX
           \/ \E f \in Flushers : SFl(f)
@@ -137,7 +145,7 @@ Silent == \/ \E g \in Emitters : SEm(g)
 TInit == Init /\ l = 1 /\ pend = NoPend /\ TLCSet(1, 1)
 TStep == /\ l <= Len(Trace)
          /\ \/ LCall \/ LRet \/ LEnq \/ LQFlushed \/ LExportBegin \/ LExportEnd \/ LExporterFlush \/ LExporterShutdown
-            \/ LPt \/ LDeq \/ LLogDropped \/ LSkip \/ LEnd \/ LCfg
+            \/ LPt \/ LDeq \/ LLogDropped \/ LSkip \/ LEnd \/ LCfg \/ LCancel
             \/ Silent
 TDone == l = Len(Trace) + 1 /\ Accepted(l) /\ TLCSet("exit", TRUE) /\ UNCHANGED tvars
 TSpec == TInit /\ [][TStep \/ TDone]_tvars
